@@ -1,9 +1,10 @@
 """C01 — every returned Manifold is a closed oriented 2-manifold or an empty error (structural clause):
 escape typestate T (tombstones compacted), S (stranded verts removed), G (import gate passed)."""
 import escape
+import contracts
 from db import AnalysisBroken
 
-BITS = 'TSG'
+BITS = 'TSGF'
 
 
 def main(chk, tier):
@@ -14,6 +15,9 @@ def main(chk, tier):
              'the result of a public Impl constructor) while it may still contain tombstones (halfedge -1 / NaN '
              'vertex), stranded unreferenced vertices, or halfedges paired from caller data that were never put '
              'through the IsManifold gate')
+    chk.rule('C01.2', 'the effects the typestate attributes to its primitives hold in their bodies: SortGeometry '
+             'calls SortVerts and SortFaces on every normal path, MakeEmpty clears positions and halfedges, '
+             'RemoveUnreferencedVerts NaN-marks vertices, CalculateBBox turns a non-finite box into MakeEmpty')
     for cfgname in configs:
         db = D.load(cfgname)
         chk.configs.append(cfgname)
@@ -22,11 +26,13 @@ def main(chk, tier):
         e = escape.Escape(db, tab, BITS)
         res, reqv = e.run()
         escape.report(chk, e, res, reqv, 'C01.1', cfgname, BITS)
+        contracts.verify(chk, db, cfgname, 'C01.2', BITS)
         for ex in tab['exempt_generators']:
             chk.count('c01.1.exempt_generators')
     n = len(configs)
     chk.floor('c01.1.escape_points', 35 * n)
     chk.floor('c01.1.summarised_methods', 60 * n)
+    chk.floor('c01.2.contract_clauses', 4 * n)
     return chk.finish(
         'Escape typestate over every function that creates or finishes a Manifold::Impl: a may-dataflow of the bits '
         'T/S/G per Impl object with interprocedural gen/kill summaries of all Impl methods derived from a table of '
